@@ -396,6 +396,16 @@ class SimOS:
         if self._fs.fds.pop(fd, None) is None:
             return self._real.close(fd)
 
+    def fdopen(self, fd, mode="r", *a, **kw):
+        meta = self._fs.fds.pop(fd, None)
+        if meta is None:
+            return self._real.fdopen(fd, mode, *a, **kw)
+        path, flags = meta
+        self._fs._event(None, "open", 0)
+        h = SimHandle(self._fs, path, mode if "a" not in mode or flags & self._real.O_APPEND else mode)
+        self._fs.open_handles.add(h)
+        return h
+
     def fspath(self, p):
         return self._real.fspath(p)
 
